@@ -86,7 +86,16 @@ pub fn run(focus_name: &str, cfg: Cfg, out: &mut Out) {
                 let op = format!("{} {}", if *is_value { "value" } else { "exec" }, hex(text.as_bytes()));
                 let ans = core.apply(&op).expect("core op");
                 answers[fi].push((ci, ans.clone()));
-                emitted.push((ci, fi, op, ans));
+                emitted.push((ci, fi, op.clone(), ans.clone()));
+                // list-matcher state must survive a serialization round trip
+                if focus == Focus::Lists && !*is_value && text.contains('$') && (k + ci) % 3 == 0 {
+                    let op2 = format!("execrt {}", hex(text.as_bytes()));
+                    let ans2 = core.apply(&op2).expect("core op");
+                    if ans2 != ans {
+                        out.impl_failure(&op2, &format!("after a JSON round trip of the context {text:?} gives {ans2}, before it gave {ans}"));
+                    }
+                    emitted.push((ci, fi, op2, ans2));
+                }
             }
         }
         for (ci, fi, op, ans) in emitted {
